@@ -71,7 +71,7 @@ fn body_bytes(r: Response) -> Vec<u8> {
     Vec::<u8>::try_from(r.body).unwrap()
 }
 
-fn conn_case(code: u16) -> String {
+fn conn_case(code: u16, headers: &[&str]) -> String {
     let listener = std::net::TcpListener::bind("127.0.0.1:0").unwrap();
     let addr = listener.local_addr().unwrap();
     let mut client = std::net::TcpStream::connect(addr).unwrap();
@@ -79,7 +79,11 @@ fn conn_case(code: u16) -> String {
     let stream = async_net::TcpStream::try_from(server_std).unwrap();
     let mut conn = HttpConn::new(peer, stream);
     conn.write_state = WriteState::Response;
-    let resp = Response::new(code);
+    let mut resp = Response::new(code);
+    for nv in headers.chunks(2) {
+        let value: servlin::AsciiString = ascii_of_tok(nv[1]).try_into().unwrap();
+        resp = resp.with_header(ascii_of_tok(nv[0]), value);
+    }
     let res = futures_lite::future::block_on(conn.write_response(&resp));
     if res.is_err() {
         return format!("write-error");
@@ -139,7 +143,7 @@ fn main() {
                 }
             }
         }
-        "conn" => conn_case(toks[1].parse().unwrap()),
+        "conn" => conn_case(toks[1].parse().unwrap(), &toks[2..]),
         _ => "?".to_string(),
     });
 }
